@@ -259,14 +259,15 @@ TagConflict(p, l) ==
 WrongKindForPlaceholder(st, l) ==
   Named(l) /\ ((l.name \in VirtSegIds(st) /\ l.rt # "S")
                \/ (l.name \in UnknownIds(st) /\ l.rt \notin {"S", "E", "G", "O", "U"}))
-\* a line that mentions its own identifier: not specified
+\* a line that mentions its own identifier (as a segment, or as an item of the group it is): the
+\* identifier would be carried by two lines / a group would list itself -- refused
 SelfMention(l) == Named(l) /\ l.name \in Mentions(l)
 
 AddDecided(st, l) ==
   LET lv == LineVersion(l) IN
   IF lv # "any" /\ lv # st.ver THEN {Fail(st, "VersionError")}
   ELSE IF l.rt = "#" THEN {Ok([st EXCEPT !.lines = Append(@, l)])}
-  ELSE IF SelfMention(l) THEN {[st |-> st, res |-> "unmodelled"]}
+  ELSE IF SelfMention(l) THEN {Fail(st, "NotUniqueError"), Fail(st, "Error")}
   ELSE IF WrongKindForPlaceholder(st, l) THEN {Fail(st, "NotUniqueError"), Fail(st, "Error")}
   ELSE IF SegMentions(l) \cap (NamesOf(st) \ SegIds(st)) # {}
     \* a segment is mentioned under an identifier that a line of another type carries
@@ -531,6 +532,9 @@ AddClone(st, id, new) ==
 Step(st, op) ==
   CASE op.k = "add"   -> Add(st, op.l)
     [] op.k = "addcl" -> AddClone(st, op.id, op.id2)
+    \* an object that was superseded (a placeholder, an earlier line of a multi-line group) is renamed
+    \* through a handle the caller kept: it does not belong to the Gfa any more, nothing changes
+    [] op.k = "stale" -> {Ok(st), Fail(st, "NotFoundError"), Fail(st, "Error")}
     [] op.k = "addc"  -> AddConnected(st, op.l)
     [] op.k = "setf"  -> SetField(st, op.ls[1], op.ls[2], op.n, op.id2)
     [] op.k = "settag" -> IF op.id2 = "bad" THEN SetTagBad(st, op.id) ELSE SetTag(st, op.id, op.l)
